@@ -74,7 +74,7 @@ func cfgFromRequest(r *http.Request, log *slog.Logger) (nowMS int, cfg *Response
 		return 0, nil, generateAndLogHttpError(log, msg, http.StatusBadRequest)
 	}
 
-	if cfg.TimeOffsetS != nil {
+	if cfg.TimeOffsetS != nil && publishTime == "" { // a publishTime was advertised on the shifted clock already
 		offsetMS := int(*cfg.TimeOffsetS * 1000)
 		nowMS += offsetMS
 	}
